@@ -258,3 +258,9 @@ CONTRACTS.append(Contract(
 ))
 LOOPS[(M + "cross", 0)] = LoopSpec(invariant={"no-cross-so-far": f"forall(0, it, lambda k: not {_cross_event('k', 'index_')})"},
                                    types={"idx": "int", "reading_one": "reading", "reading_two": "reading", "prev_one": "reading", "prev_two": "reading"})
+
+# a movement function wrapped in an Amorph is an indicator column: its causality (read frame inside [0, norm(index)])
+# is what C01 / C02 need of it, so the functions belong to those cones too
+for _c in CONTRACTS:
+    if "C16" in _c.props:
+        _c.props += [p for p in ("C01", "C02") if p not in _c.props]
